@@ -1108,8 +1108,18 @@ def call_method(ev, recv, name, args, kwargs, node):
             d = Dct(recv.items)
             d.unknown = recv.unknown
             return d
+        from .evalr import ObjDictView
+        if name == "pop" and isinstance(recv, ObjDictView) and 1 <= len(args) <= 2 and isinstance(args[0], Const) and isinstance(args[0].value, str):
+            # obj.__dict__.pop("name", default): drops an instance attribute (the usual way to invalidate a cached_property)
+            k = args[0].value
+            if k in recv.obj.attrs:
+                val = recv.obj.attrs.pop(k)
+                ev.event("attr_delete", obj=recv.obj, attr=k, node=node)
+                return val
+            if len(args) == 2:
+                return args[1]
+            raise RaiseSignal(App("KeyError", (args[0],)), node)
         if name == "setdefault" and 1 <= len(args) <= 2:
-            from .evalr import ObjDictView
             k = args[0]
             dflt = args[1] if len(args) > 1 else Const(None)
             cur = recv.items
